@@ -3,7 +3,6 @@ package c16
 import (
 	"bytes"
 	"fmt"
-	"math/big"
 
 	"gitlab.com/aquachain/aquachain/common"
 	"gitlab.com/aquachain/aquachain/core"
@@ -52,16 +51,15 @@ func checkBloom(c *fw.Ctx, what string, bloom types.Bloom, logs []*types.Log) {
 		if !types.BloomLookup(bloom, typed) {
 			c.Violate("bloom_test_false_negative", "BloomLookup", kind, fmt.Sprintf("%s bloom: BloomLookup(%x) = false although a covered log carries it", what, raw))
 		}
-		cause := kind
+		// Bloom.TestBytes is the byte-slice form of the same test (Bloom.Test takes a
+		// big.Int, which cannot express leading zero bytes, so it is not probed)
+		cause := "item"
 		if leadingZero(raw) {
-			cause = kind + "_with_leading_zero_byte"
+			cause = "item_with_leading_zero_byte"
 			c.Count("bloom_tests_on_items_with_leading_zero_byte")
 		}
 		if !bloom.TestBytes(raw) {
-			c.Violate("bloom_test_false_negative", "Bloom.TestBytes", cause, fmt.Sprintf("%s bloom: Bloom.TestBytes(%x) = false although a covered log carries it", what, raw))
-		}
-		if !bloom.Test(new(big.Int).SetBytes(raw)) {
-			c.Violate("bloom_test_false_negative", "Bloom.Test", cause, fmt.Sprintf("%s bloom: Bloom.Test(big(%x)) = false although a covered log carries it", what, raw))
+			c.Violate("bloom_test_false_negative", "Bloom.TestBytes", cause, fmt.Sprintf("%s bloom: Bloom.TestBytes(%x) = false although a covered log carries this %s", what, raw, kind))
 		}
 	}
 	for _, l := range logs {
@@ -111,6 +109,8 @@ func synthItem(r *fw.Rand, n int) []byte {
 	return b
 }
 
+var synthSampled bool
+
 func runBloomSynthetic(c *fw.Ctx) {
 	if err := refbloom.SelfTest(); err != nil {
 		panic(err)
@@ -155,7 +155,9 @@ func runBloomSynthetic(c *fw.Ctx) {
 			if len(all) >= 2 {
 				c.NontrivialBytes([]byte(fmt.Sprint(in)))
 			}
-			if i < 2 {
+			if c.Batch == 0 && len(all) >= 3 && !synthSampled {
+				// one written-out log set is enough; leave room for the other legs
+				synthSampled = true
 				c.Sample(map[string]interface{}{"case": fmt.Sprintf("synth-%d", i), "receipts": len(receipts), "logs": len(all), "input": in})
 			}
 		})
@@ -185,7 +187,7 @@ func (cr *chainRun) finalBloomCheck(id string) {
 			if h == nil {
 				panic("harness: canonical header missing")
 			}
-			stored := core.GetBlockReceipts(cr.be.db, blk.Hash(), uint64(n))
+			stored := core.GetBlockReceipts(cr.db, blk.Hash(), uint64(n))
 			built := cr.led.tree.ByHash[blk.Hash()].Receipts
 			if len(stored) != len(built) {
 				c.Violate("stored_receipts_differ_from_executed", "GetBlockReceipts", "count", fmt.Sprintf("block %d: %d stored receipts, %d executed", n, len(stored), len(built)))
